@@ -20,7 +20,7 @@ def W2():
     return [
         plate("A", 1, 2, 0, 200, [[100, 50]]),
         plate("B", 2, 1, 5, 120, [[0], [60]]),
-        trough("S", 1, 1, 10, 500, 400),
+        dict(trough("S", 1, 1, 10, 500, 400), generic=True),
     ]
 
 
@@ -28,7 +28,7 @@ def W3():
     return [
         plate("P", 2, 3, 10, 100, 90),
         plate("Q", 3, 2, 0, 60, [[0, 40], [10, 0], [55, 0]]),
-        trough("T", 3, 2, 20, 400, [95, 35]),
+        dict(trough("T", 3, 2, 20, 400, [95, 35]), generic=True),
     ]
 
 
@@ -60,7 +60,7 @@ def callers_arrays_unchanged(W, config):
             continue
         import numpy as np
 
-        if not np.array_equal(W["shared"][key], np.array(s["init"], dtype=float)):
+        if not np.array_equal(W["shared"][key].astype(float), np.array(s["init"], dtype=W["shared"][key].dtype).astype(float)):
             bad.append(f"the initial_volumes array handed to {s['name']} was modified: {W['shared'][key].tolist()} (given {s['init']})")
     return bad
 
@@ -224,10 +224,12 @@ class BaseB:
     regime = "B"
     tier = "quick"
     SEQ_WINDOW = 400
+    MAX_SEQ_INVESTIGATIONS = 3
 
     def run_chunk(self, chunk, st):
         clear_caches()
         prev = []
+        investigated = 0
         for case in self.cases(chunk):
             outcome, key, viol = self.one(case)
             if viol:
@@ -235,6 +237,11 @@ class BaseB:
                 clear_caches()
                 o2, k2, v2 = self.one(case)
                 if sorted(c for c, _ in v2) != sorted(c for c, _ in viol):
+                    investigated += 1
+                    if investigated > self.MAX_SEQ_INVESTIGATIONS:
+                        # enough replayable examples from this chunk; the rest is only counted
+                        st.extra["order_dependent_not_investigated"] += 1
+                        continue
                     seq = None
                     for pred in reversed(prev[-self.SEQ_WINDOW :]):
                         clear_caches()
